@@ -23,6 +23,9 @@ type c03env struct {
 type probe struct {
 	id, fwd int
 	env     *c03env
+	pan     int         // bit mask of kinds on which the handler panics
+	pval    interface{} // what it panics with
+	onExc   func(p *probe, pos int, ex error) // C07: exception observer
 }
 
 func (p *probe) probeOf() *probe { return p }
@@ -41,6 +44,23 @@ func (p *probe) on(kind int, ctx netty.HandlerContext, arg interface{}, forward 
 			pos = -2 // context not bound to this handler
 		}
 		env.log = append(env.log, fmt.Sprintf("%d:%d", pos, p.id))
+	}
+	if (kind == 3 || kind == 4) && p.onExc != nil && env.recKind != kind {
+		pos := -1
+		for j := 0; j < env.pl.Size()+2; j++ {
+			if c := env.pl.ContextAt(j); c != nil && c == ctx {
+				pos = j
+				break
+			}
+		}
+		ex, _ := arg.(error)
+		if kind == 4 {
+			pos = -4 // inactive: the close error
+		}
+		p.onExc(p, pos, ex)
+	}
+	if p.pan>>uint(kind)&1 == 1 {
+		panic(p.pval)
 	}
 	if p.fwd>>uint(kind)&1 == 1 {
 		forward()
